@@ -2,7 +2,7 @@
 from vlib.tok import f64, s as S, lst
 from checks import regiongen as G
 ID = 'C06'
-THEOREMS = ['Nix.C06.mtagOffsetCount_rows', 'Nix.C06.prepare_ok', 'Nix.C06.prepare_indep', 'Nix.C06.mtag_list_eq_map_single', 'Nix.C06.mtag_single_of_list', 'Nix.C06.mtag_index_oob', 'Nix.C06.mtag_region_spec', 'Nix.C06.mtag_feature_tagged', 'Nix.C06.mtag_feature_untagged', 'Nix.C06.mtag_feature_indexed_single', 'Nix.C05.mtagDim_spec']
+THEOREMS = ['Nix.C06.mtagOffsetCount_rows', 'Nix.C06.prepare_ok', 'Nix.C06.prepare_indep', 'Nix.C06.mtag_list_eq_map_single', 'Nix.C06.mtag_single_of_list', 'Nix.C06.mtag_index_oob', 'Nix.C06.mtag_all_of_none', 'Nix.C06.mtag_feature_all_of_none', 'Nix.C06.mtag_region_spec', 'Nix.C06.mtag_feature_tagged', 'Nix.C06.mtag_feature_untagged', 'Nix.C06.mtag_feature_indexed_single', 'Nix.C05.mtagDim_spec']
 RULE = ('random multi-tags: N<=8 positions; 1-D positions tagging 1-D data, N x D tagging D-dimensional data, D2 != D; with / without extents; '
         'all descriptor kinds as in C05; default (Exclusive) and Inclusive; single indices, index lists with repeats, the empty list (= all), '
         'indices beyond N; all link types. non-trivial = the model returned at least one region; distinct = distinct op line.')
@@ -99,11 +99,26 @@ def cases(tier, seed, rng):
                 # a position index that does not exist (also where the feature itself has that many rows), alone or in a list
                 if rng.random() < 0.3: sel.insert(rng.randrange(len(sel) + 1), npos + rng.randrange(3))
                 if rng.random() < 0.15: sel = [npos + rng.randrange(3)]
+                if rng.random() < 0.1: sel = []          # the feature data of ALL positions
                 batch.append(mline('mtag_feat', shape, dims, pos, flat, ext, units, lst([str(x) for x in sel]), rng.choice(['excl', 'incl']),
                                    ' %s %s %s' % (ltype, lst([str(x) for x in fshape]), lst([d.tok() for d in fd]))))
         if len(batch) >= 150:
             out.append(Case(batch, 'gen:mtag')); batch = []
     if batch: out.append(Case(batch, 'gen:mtag'))
+    # multi-tags WITHOUT positions (an empty positions array): "all positions" is no region at all, any index is out of bounds —
+    # for references and for features of every link type
+    batch = []
+    for k in range(6 if tier == 'quick' else 120):
+        shape, dims = G.make_array(rng)
+        flat = len(shape) == 1 and rng.random() < 0.7
+        for rm in ('excl', 'incl'):
+            for sel in ([], [0], [1, 0]):
+                batch.append(mline('mtag_data', shape, dims, [], flat, None, [], lst([str(x) for x in sel]), rm))
+                for ltype in ('tagged', 'untagged', 'indexed'):
+                    fshape, fd = G.make_array(rng, rank=len(shape) if ltype == 'tagged' else None)
+                    batch.append(mline('mtag_feat', shape, dims, [], flat, None, [], lst([str(x) for x in sel]), rm,
+                                       ' %s %s %s' % (ltype, lst([str(x) for x in fshape]), lst([d.tok() for d in fd]))))
+    out.append(Case(batch, 'gen:mtag-without-positions'))
     return out
 
 def nontrivial(case, tags):
